@@ -23,6 +23,13 @@ def main():
     from symoas.harness import assert_repo_import
 
     rc = 3
+    cov = None
+    if os.environ.get("SYMOAS_COVERAGE"):
+        # development aid: which lines of the analysed library does this check execute (symbolically or in replays)?
+        import coverage
+
+        cov = coverage.Coverage(data_file=os.path.join(os.environ["SYMOAS_COVERAGE"], ".coverage.%s" % a.pid), source=[os.path.join(os.environ.get("OAS_REPO", "/repo"), "openaerostruct")])
+        cov.start()
     try:
         assert_repo_import()
         mod = importlib.import_module("props.%s" % a.pid.lower())
@@ -39,6 +46,9 @@ def main():
         rc = 3
     finally:
         solve.close_pool()
+        if cov is not None:
+            cov.stop()
+            cov.save()
     sys.stdout.flush()
     os._exit(rc)
 
